@@ -507,7 +507,9 @@ class _DefinitionGenerator:
                         self._check_nothing_after_return(source, match.end("return"))
                         beg_idx = match.end("return")
                         returned = _join_lines(
-                            source[beg_idx : len(source)].lstrip().splitlines(),
+                            sourceutils.split_lines(
+                                source[beg_idx : len(source)].lstrip()
+                            ),
                         )
                         last_changed = len(source)
                     else:
